@@ -99,6 +99,21 @@ def run(ctx):
     eng.random_runs(topos.join_timeout(maxseq=12, ticks=3), 6 if ctx.quick else 100, 2500, p_timeout=0.04, faults=silence,
                     tag='silent-source', validate=2 if ctx.quick else 15)
     partial_publish_kills(eng, rep, topos.chain2(maxseq=6, conn_ticks=5), 'S', 'K', 6 if ctx.quick else 60)
+    # a source of a join ends cleanly (CLOSE) in the middle of the stream and is started again (OFP!Again) while the join holds the
+    # other source's frame of the current id
+    ag = topos.with_exit(topos.join2(maxseq=8), 'S', 3, 'clean', prop=(), obey=())
+    eng.model_check(topos.with_exit(topos.join2(maxseq=2), 'S', 1, 'clean', prop=(), obey=()), 'SpecPrompt', invariants=INV,
+                    timeout=900, max_faults=1, fault_kinds=['again'], victims=['S'])
+    eng.conformance(topos.with_exit(topos.join2(maxseq=3), 'S', 2, 'clean', prop=(), obey=()), 'SpecPrompt', 6 if ctx.quick else 80, 300,
+                    max_faults=1, fault_kinds=['again'], victims=['S'])
+
+    def again(rng, pipe):
+        def go(p):
+            t = p.task('S')
+            if t is None or t.state == 'done':
+                p.restart('S')
+        return [(rng.randrange(150, 400), go)]
+    eng.random_runs(ag, 6 if ctx.quick else 100, 1500, p_timeout=0.03, faults=again, tag='source-ends-and-returns')
     return rep.finish()
 
 
